@@ -166,8 +166,10 @@ def _stores_in_order(n, out):
         _stores_in_order(c, out)
     if n.kind == "BinaryOperator" and n.op == "=":
         lhs = strip(n.ch[0])
-        if lhs is not None and lhs.kind in ("MemberExpr",
-                                            "ArraySubscriptExpr"):
+        if lhs is not None and (lhs.kind in ("MemberExpr",
+                                             "ArraySubscriptExpr")
+                                or (lhs.kind == "UnaryOperator"
+                                    and lhs.op == "*")):
             out.append(n)
 
 
@@ -270,7 +272,12 @@ def cached_paths(ctx, facts, fname, max_paths=40000):
     from .core import VERIF
     store = ctx._cache.setdefault("sympath-store", {})
     if "loaded" not in store:
-        digest = hashlib.sha256(("p4" + facts.src).encode()).hexdigest()[:24]
+        eng = ""
+        here = os.path.dirname(os.path.abspath(__file__))
+        for m in ("csym.py", "ccfg.py", "cexpr.py", "cfacts.py", "cfg.py"):
+            with open(os.path.join(here, m)) as f:
+                eng += f.read()
+        digest = hashlib.sha256((eng + facts.src).encode()).hexdigest()[:24]
         store["file"] = os.path.join(VERIF, ".cache", f"paths-{digest}.pkl")
         store["data"] = {}
         store["dirty"] = False
